@@ -18,7 +18,7 @@ from .common import Violation, f2h, h2f
 
 # scale factors of the statement: decades 1e-6..1e6 and non-powers of two
 C06_SCALES = [10.0 ** k for k in range(-6, 7) if k != 0] + [3.7, 0.37, 3.141592653589793]
-C07_SCALES = [4.0, 0.37, 1e-3, 1e3]
+C07_SCALES = [1e-3, 1e3, 0.37, 4.0]      # extremes first: stage B records the first one
 
 RTOL = dict(
     discrete=dict(time=1e-9, mn=1e-9, vr=1e-9),
@@ -220,7 +220,7 @@ def kw_from_jsonable(d):
 
 # ----------------------------------------------------------------------------- option generators
 
-def draw_options(rng, ts, info, method=None):
+def draw_options(rng, ts, info, method=None, flavour=None):
     """An option set (as our dict incl. `method`) accepted by the API, with enough structure to reach
     the absolute-unit parameters of the statement."""
     method = method or str(rng.choice(["variational_gamma", "inside_outside", "maximization"]))
@@ -245,7 +245,7 @@ def draw_options(rng, ts, info, method=None):
             kw["singletons_phased"] = False
     else:
         r = rng.random()
-        if r < 0.6:
+        if r < 0.6 and flavour != "epochs_tp":
             kw["population_size"] = float(info["Ne"])
         else:
             ne = float(info["Ne"])
@@ -256,7 +256,18 @@ def draw_options(rng, ts, info, method=None):
         if rng.random() < 0.4:
             kw["eps"] = float(rng.choice([1e-10, 1e-8, 1e-6, 1e-3]))
         r = rng.random()
-        if r < 0.25:
+        if flavour == "epochs_tp":
+            # user timepoints that sit on, just below and just above the epoch breaks: an epoch lookup with an
+            # absolute tolerance, or a grid point mapped with the wrong epoch's measure, shows up here
+            ne = float(info["Ne"])
+            k = int(rng.choice([6, 12]))
+            tps = set(float(x) for x in rng.uniform(0.01, 8, size=k) * ne)
+            # (not closer than that: grid points 1e-12 apart make `tp[i] - tp[j]` cancel catastrophically and the
+            # comparison across units then measures rounding, not the property)
+            for b in kw["population_size"]["time_breaks"]:
+                tps |= {b, b - 0.3, b + 0.3}
+            kw["timepoints"] = [0.0] + sorted(tps)
+        elif r < 0.25:
             kw["timepoints"] = int(rng.choice([5, 10, 30]))
         elif r < 0.5:
             ne = float(info["Ne"])
@@ -271,12 +282,18 @@ def draw_options(rng, ts, info, method=None):
     return kw
 
 
-def draw_ts(rng, method):
-    """A tree sequence with mutations; historical samples only for the variational method."""
-    hist = 0.4 if method == "variational_gamma" else 0.0
-    ploidy = 2 if (method == "variational_gamma" and rng.random() < 0.25) else 1
+def draw_ts(rng, method, hist=None):
+    """A tree sequence with mutations; historical samples only for the variational method
+    (`hist` forces them on/off)."""
+    if method != "variational_gamma":
+        hp = 0.0
+    elif hist is None:
+        hp = 0.4
+    else:
+        hp = 1.0 if hist else 0.0
+    ploidy = 2 if (method == "variational_gamma" and not hp and rng.random() < 0.25) else 1
     for _ in range(20):
-        ts, info = gen.gen_ts(rng, historical=hist, polytomy=0.15, ploidy=ploidy, n=int(rng.integers(3, 8)),
+        ts, info = gen.gen_ts(rng, historical=hp, polytomy=0.15, ploidy=ploidy, n=int(rng.integers(3, 8)),
                               trees=int(rng.choice([1, 2, 3, 5, 8])), muts_per_edge=float(rng.choice([2, 4, 8])))
         if ts.num_mutations >= 5 and ts.num_edges > 0:
             return unknown_mut_times(ts), info
@@ -683,3 +700,48 @@ def corr_constrain(cases, batch, tag):
             return []
         checks.append(chk)
     return impl, checks
+
+
+# ============================================================================= finding F13 (rescaling, near-ties)
+
+NEAR_TIE = "rescaling-near-tie-epoch"
+
+
+def tie_pattern(mn, flags):
+    """(number of exact ties, number of near ties with relative gap in (0, 1e-9)) among the posterior means of
+    the non-sample nodes"""
+    import tskit
+    free = (np.asarray(flags) & tskit.NODE_IS_SAMPLE) == 0
+    v = np.sort(np.asarray(mn, dtype=float)[free & np.isfinite(mn)])
+    v = v[v > 0]
+    if v.size < 2:
+        return 0, 0
+    gaps = np.diff(v) / v[1:]
+    return int(np.sum(gaps == 0)), int(np.sum((gaps > 0) & (gaps < 1e-9)))
+
+
+def near_tie_rescaling(ts0, kw0, ts1, kw1, c_time):
+    """Is a variational_gamma disagreement between two equivalent runs the mechanism of finding F13?
+    `mutational_timescale` gives every epoch between consecutive distinct node times the same weight, whatever
+    its length, so it is discontinuous where two node times coincide: posterior means of symmetric nodes that
+    differ by an ulp in one run and tie in the other change every rescaled date by percents.
+    Criterion (computed on the implementation): (a) time rescaling is on, (b) with `rescaling_intervals=0` the two
+    runs agree within tolerance, (c) the unrescaled posterior means of the non-sample nodes contain a near-tie
+    (relative gap below 1e-9) in either run, or a different number of exact ties in the two runs."""
+    if kw0["method"] != "variational_gamma":
+        return None
+    if kw0.get("rescaling_intervals", 1000) == 0 or kw0.get("rescaling_iterations", 5) == 0:
+        return None
+    r0 = run(ts0, dict(kw0, rescaling_intervals=0))
+    r1 = run(ts1, dict(kw1, rescaling_intervals=0))
+    if not (r0["ok"] and r1["ok"]):
+        return None
+    o0, o1 = outputs(r0["out"]), outputs(r1["out"])
+    errs = compare(o0, o1, c_time, "variational_gamma")
+    if any(e > field_tol(f, "variational_gamma") for f, e in errs.items()):
+        return None
+    e0, n0 = tie_pattern(o0["node_mn"], ts0.nodes_flags)
+    e1, n1 = tie_pattern(o1["node_mn"], ts1.nodes_flags)
+    if n0 + n1 > 0 or e0 != e1:
+        return dict(kind=NEAR_TIE, exact_ties=(e0, e1), near_ties=(n0, n1))
+    return None
